@@ -50,6 +50,10 @@ def plan(tier, seed):
         for m in METHODS:
             for f in (fft_sizes(K, tier) if m == 'overlap_save' else [None]):
                 cases.append({'n': n, 'K': K, 'lay': lay, 'method': m, 'fft': f, 'dt': 'f32'})
+    # far more band values than samples (offsets beyond n + 2), whatever the tier's grid
+    for n, K in ((4, 7), (4, 8), (5, 8), (5, 9), (6, 9), (2, 6)):
+        if not any(c['n'] == n and c['K'] == K for c in cases):
+            cases += [{'n': n, 'K': K, 'lay': 'vec', 'method': m, 'fft': None, 'dt': 'f32'} for m in METHODS]
     rej = [{'reject': 'method', 'method': m} for m in ('overlap_add', 'toeplitz', '', 'DENSE')]
     for K in range(1, Kmax + 1):
         for lay in ('vec', 'x2b2', 'x32b31'):
